@@ -51,6 +51,11 @@ type form struct {
 const sel = "select id, v from tc where id = 1"
 const selP = "select id, v from tc where id = ?"
 
+// a statement text of more than 4 KiB (an ORM's long IN list): the clause that decides the
+// routing sits at the END of the text (added after seeded change c22-2 was missed: only the
+// head of a long statement was tokenized)
+var selLong = "select id, v from tc where id in (" + strings.Repeat("1, ", 1500) + "1)"
+
 var forms = []form{
 	{"select", "plain", sel, selP},
 	{"select-const", "plain", "select 2", ""},
@@ -77,10 +82,28 @@ var forms = []form{
 	{"probe-show-variables", "probe", "show variables like 'read_only'", ""},
 	{"probe-show-global-variables", "probe", "show global variables like 'read_only'", ""},
 
+	{"long-select", "plain", selLong, ""},
+	{"long-for-update", "lock", selLong + " for update", ""},
+	{"long-for-share-nowait", "lock", selLong + " for share nowait", ""},
+	{"long-lock-in-share-mode", "lock", selLong + " lock in share mode", ""},
+	{"long-hint-trailing", "hint", selLong + " /*master*/", ""},
+	{"long-hint-leading", "hint", "/*master*/ " + selLong, ""},
+	{"long-delete", "write", "delete from tc where id in (" + strings.Repeat("1, ", 1500) + "1)", ""},
+
 	{"insert", "write", "insert into tc (id, v) values (1, 'a')", "insert into tc (id, v) values (?, 'a')"},
 	{"replace", "write", "replace into tc (id, v) values (1, 'a')", "replace into tc (id, v) values (?, 'a')"},
 	{"update", "write", "update tc set v = 'b' where id = 1", "update tc set v = 'b' where id = ?"},
 	{"delete", "write", "delete from tc where id = 1", "delete from tc where id = ?"},
+}
+
+// lenClass: the long-* forms are the same forms with a text of more than 4 KiB; the known
+// trailer/hint findings apply to them as well, so the form feature is the base form and the
+// length is a feature of its own.
+func lenClass(form string) string {
+	if strings.HasPrefix(form, "long-") {
+		return "long"
+	}
+	return "short"
 }
 
 type deco struct{ Name, Text string }
@@ -291,7 +314,7 @@ func runCase(r *ev.Run, wk *worker, c caseT) outcome {
 		Summary: fmt.Sprintf("%s (tx=%s, check_select_lock=%s, %s): %q must run on the master (%s) but was executed on %s: %q",
 			c.User, c.Tx, c.CSL, c.Transport, c.SQL, o.Rule, o.Served, o.Execs[0].SQL),
 		Features: map[string]string{
-			"form": c.Form, "class": c.Class, "lead": c.Lead, "trail": c.Trail, "case": c.Case, "space": c.Space,
+			"form": strings.TrimPrefix(c.Form, "long-"), "len": lenClass(c.Form), "class": c.Class, "lead": c.Lead, "trail": c.Trail, "case": c.Case, "space": c.Space,
 			"user": c.User, "check_select_lock": c.CSL, "tx": c.Tx, "transport": c.Transport,
 			"rule": o.Rule, "served": o.Served,
 		},
@@ -361,7 +384,7 @@ func runMulti(r *ev.Run, s *rig.Sess, c caseT) outcome {
 			Summary: fmt.Sprintf("%s (tx=%s, check_select_lock=%s, multi-statement %s): piece %d %q of %q must run on the master (%s) but was executed on %s (pieces served by: %s)",
 				c.User, c.Tx, c.CSL, c.Shape, i+1, pc.SQL, c.SQL, rule, served[i], o.Served),
 			Features: map[string]string{
-				"form": form, "class": pc.Class, "lead": lead, "trail": trail, "case": cs, "space": sp,
+				"form": strings.TrimPrefix(form, "long-"), "len": lenClass(form), "class": pc.Class, "lead": lead, "trail": trail, "case": cs, "space": sp,
 				"user": c.User, "check_select_lock": c.CSL, "tx": c.Tx, "transport": c.Transport,
 				"rule": rule, "served": served[i],
 				"shape": c.Shape, "piece": fmt.Sprint(i + 1), "before": before,
